@@ -3,7 +3,9 @@
     by induction on reachability ([lib/Sched.v]) over the model [model/Locks.v]. *)
 From Coq Require Import List Arith Bool Lia.
 Import ListNotations.
-From TI Require Import lib.Sched model.Locks.
+From TI Require Import lib.Sched model.Locks model.LocksSpec.
+
+Local Arguments Nat.eqb : simpl never.
 
 (** ** 1. Lock accounting (I3: each lock has one owner, who holds it [count] times) *)
 
@@ -16,8 +18,11 @@ Definition refs_pc (p : pc) : list lref :=
   | _ => []
   end.
 
-Definition refs_stack (st : list (lref * lref)) : list lref :=
-  flat_map (fun f => [fst f; snd f]) st.
+Fixpoint refs_stack (st : list (lref * lref)) : list lref :=
+  match st with
+  | [] => []
+  | f :: r => fst f :: snd f :: refs_stack r
+  end.
 
 Fixpoint nref (L : lref) (ls : list lref) : nat :=
   match ls with
@@ -95,49 +100,761 @@ Proof.
   - eapply (acct_release _ _ _ t); eauto. intros u N. simpl. now rewrite Oth.
 Qed.
 
-Lemma lk_set_th s t x ev L : lk (set_th s t x ev) L = lk s L.
-Proof. destruct L; reflexivity. Qed.
-Lemma th_set_th s t x ev u : th (set_th s t x ev) u = upd (th s) t x u.
-Proof. reflexivity. Qed.
-Lemma lk_set_lk s l v L : lk (set_lk s l v) L = if lref_eqb L l then v else lk s L.
-Proof. destruct L, l; reflexivity. Qed.
-Lemma th_set_lk s l v : th (set_lk s l v) = th s.
-Proof. reflexivity. Qed.
+(** consequences: who holds a lock owns it; nobody else holds it *)
+Lemma acct_owner s t L : Acct s -> 1 <= held (th s t) L -> owned_by (lk s L) t = true.
+Proof.
+  intros A H. destruct (A L) as [_ E]. specialize (E t). simpl in E.
+  destruct (owned_by (lk s L) t); auto. lia.
+Qed.
+
+Lemma acct_excl s t u L :
+  Acct s -> 1 <= held (th s t) L -> u <> t -> held (th s u) L = 0.
+Proof.
+  intros A H N. pose proof (acct_owner _ _ _ A H) as O.
+  destruct (A L) as [_ E]. specialize (E u). simpl in E. rewrite E.
+  apply owned_by_eq in O. unfold owned_by. rewrite O.
+  destruct (Nat.eqb_spec t u); congruence.
+Qed.
+
+Lemma acct_unique s t u L :
+  Acct s -> 1 <= held (th s t) L -> 1 <= held (th s u) L -> u = t.
+Proof.
+  intros A Ht Hu. destruct (Nat.eq_dec u t) as [E|N]; auto.
+  pose proof (acct_excl _ _ _ _ A Ht N). lia.
+Qed.
+
+(** ** 2. The thread-local transition *)
 
 Ltac step_cases H :=
-  repeat match type of H with
-         | (if ?c then _ else _) = Some _ => let E := fresh "E" in destruct c eqn:E
-         | match ?c with _ => _ end = Some _ => let E := fresh "E" in destruct c eqn:E
-         | None = Some _ => discriminate H
-         | Some _ = Some _ => inversion H; clear H
-         end.
+  cbn beta iota in H;
+  lazymatch type of H with
+  | Some _ = Some _ => inversion H; clear H
+  | None = Some _ => discriminate H
+  | (if ?c then _ else _) = Some _ =>
+    let E := fresh "E" in destruct c eqn:E; step_cases H
+  | match ?c with _ => _ end = Some _ =>
+    let E := fresh "E" in destruct c eqn:E; step_cases H
+  | _ => idtac
+  end.
 
-Ltac solve_L :=
-  first [ left; split; [reflexivity | simpl; lia]
-        | right; left; split; [reflexivity | split; [assumption | simpl; lia]]
-        | right; right; split; [reflexivity | split; simpl; lia] ].
+Ltac kill_lrefs := repeat match goal with l : lref |- _ => destruct l end.
 
-Lemma acct_step cf s t s' :
-  single cf = false -> Acct s -> step cf s t = Some s' -> Acct s'.
+Definition acq_of (a : action) (L : lref) : nat :=
+  match a with AAcq l => if lref_eqb l L then 1 else 0 | _ => 0 end.
+Definition rel_of (a : action) (L : lref) : nat :=
+  match a with ARel l => if lref_eqb l L then 1 else 0 | _ => 0 end.
+
+(** what a step does to the holdings of the stepping thread *)
+Lemma next_held c r x a x' ev L :
+  next false c r x = Some (a, x', ev) ->
+  held x' L + rel_of a L = held x L + acq_of a L.
 Proof.
-  intros SG A H. unfold step in H.
-  destruct (Nat.eqb t (term_tid cf)) eqn:TT.
-  { (* the terminal *)
-    destruct (reqs s) as [|r rest]; try discriminate. inversion H; subst s'. exact A. }
-  destruct (negb (started s (proc cf t))); try discriminate.
-  rewrite SG in H.
-  destruct (t_pc (th s t)) eqn:PC; step_cases H; subst s';
-    (apply (Acct_intro s _ t);
-     [ intros u N; simpl; now rewrite upd_other by auto
-     | intro L; simpl; rewrite upd_same; unfold held; simpl; rewrite ?PC; simpl
-     | exact A ]).
-  all: try (left; split; [destruct L; reflexivity | simpl; lia]).
-  - (* PAcq1 *) destruct L, l1; simpl in *; solve_L.
-  - (* PAcq2 *) destruct L, l1, l2; simpl in *; solve_L.
-  - (* PAfter *) rewrite E0. destruct L, l, l0; simpl; solve_L.
-  - (* PRel2 *) destruct L, l1, l2; simpl; solve_L.
-  - (* PRel1, outermost *) destruct L, l1; simpl; rewrite ?E; simpl; solve_L.
-  - (* PRel1, nested *) destruct L, l1; simpl; rewrite ?E; simpl; solve_L.
-  - (* SAcq *) destruct L, l; simpl in *; solve_L.
-  - (* SRel *) destruct L, l; simpl; solve_L.
+  unfold next. intro H.
+  destruct (t_pc x) eqn:PC; step_cases H; subst; unfold held; cbn;
+    rewrite ?PC; cbn;
+    repeat match goal with E : t_stack _ = _ |- _ => rewrite E end; cbn;
+    kill_lrefs; cbn; first [lia | destruct (t_stack x); cbn; lia].
 Qed.
+
+Definition mono (c l : lref) : Prop := c = LT -> l = LT.
+
+(** what a thread knows about the global [c] of its process (I1, I2) *)
+Definition local_ok (c : lref) (x : thread) : Prop :=
+  Forall (fun f => snd f = c) (t_stack x) /\
+  match t_pc x with
+  | PIdle | SRead _ => t_stack x = []
+  | PRead1 | PAfter | PRel2 _ _ | PRel1 _ => True
+  | PAcq1 l1 | PRead2 l1 => mono c l1 /\ (t_stack x <> [] -> l1 = c)
+  | PAcq2 l1 l2 => l2 = c /\ mono c l1
+  | PBody | PWait _ => t_stack x <> []
+  | SAcq _ l | SCheck _ l => mono c l /\ t_stack x = []
+  | SSwap _ l => l = LT /\ t_stack x = []
+  | SRel _ _ h | SStart _ h => h = LM /\ c = LM /\ t_stack x = []
+  end.
+
+Definition cur_after (a : action) (c : lref) : lref :=
+  match a with ASwap => LM | _ => c end.
+
+Lemma next_local c r x a x' ev :
+  next false c r x = Some (a, x', ev) ->
+  local_ok c x -> local_ok (cur_after a c) x'.
+Proof.
+  unfold next, local_ok. intros H [F P].
+  destruct (t_pc x) eqn:PC; step_cases H; subst; cbn;
+    repeat match goal with E : t_stack _ = _ |- _ => rewrite E in * end;
+    unfold mono in *; cbn in *.
+  all: try solve [intuition (try congruence)].
+  all: try solve [inversion F; subst; intuition (try congruence)].
+  all: try solve [split; [constructor; intuition|]; intuition congruence].
+  all: try solve [kill_lrefs; intuition congruence].
+  all: try solve [destruct P as [? E]; rewrite E in *; kill_lrefs; cbn;
+                  intuition (try congruence)].
+  all: try solve [destruct P as [? E]; rewrite E in *; split; [constructor|]; auto].
+Qed.
+
+(** facts about particular actions *)
+Lemma next_swap_holds c r x x' ev :
+  next false c r x = Some (ASwap, x', ev) -> local_ok c x -> 1 <= held x LT.
+Proof.
+  unfold next, local_ok. intros H [F P].
+  destruct (t_pc x) eqn:PC; step_cases H; subst.
+  destruct P as [-> _]. unfold held. rewrite PC. cbn. lia.
+Qed.
+
+Lemma next_start_lm c r x ch h x' ev :
+  next false c r x = Some (AStart ch h, x', ev) -> local_ok c x -> h = LM /\ c = LM.
+Proof.
+  unfold next, local_ok. intros H [F P].
+  destruct (t_pc x) eqn:PC; step_cases H; subst. intuition.
+Qed.
+
+Lemma held_stack_pos x c :
+  Forall (fun f => snd f = c) (t_stack x) -> t_stack x <> [] -> 1 <= held x c.
+Proof.
+  unfold held. destruct (t_stack x) as [|[l1 l2] st]; [congruence|].
+  intros F _. inversion F; subst. cbn. destruct l1, l2; cbn; lia.
+Qed.
+
+Lemma held_zero_stack x c :
+  Forall (fun f => snd f = c) (t_stack x) -> held x c = 0 -> t_stack x = [].
+Proof.
+  intros F H. destruct (t_stack x) eqn:E; auto.
+  assert (1 <= held x c) by (apply held_stack_pos; auto; congruence). lia.
+Qed.
+
+(** the global of the process changes under a thread's feet (another thread swapped
+    the lock): only possible while the thread holds nothing of the old lock *)
+Lemma local_swapped x : local_ok LT x -> held x LT = 0 -> local_ok LM x.
+Proof.
+  intros [F P] H. pose proof (held_zero_stack _ _ F H) as E.
+  unfold local_ok. rewrite E in *. split; [constructor|].
+  unfold held in H. rewrite E in H.
+  destruct (t_pc x) eqn:PC; unfold mono in *; cbn in *; kill_lrefs; cbn in *;
+    intuition (try congruence; try lia).
+Qed.
+
+Lemma local_cur_change c c' x :
+  local_ok c x -> c' = c \/ (c' = LM /\ held x LT = 0) -> local_ok c' x.
+Proof.
+  intros L [->|[-> H]]; auto. destruct c; auto. now apply local_swapped.
+Qed.
+
+(** ** 3. The global invariant and its preservation *)
+Section Inv.
+  Variable cf : cfg.
+  Hypothesis SG : single cf = false.
+
+  Record Inv (s : state) : Prop := {
+    I_acct : Acct s;
+    (* I1: what every thread has read / holds is consistent with ITS process's global *)
+    I_local : forall t, local_ok (cur s (proc cf t)) (th s t);
+    (* I2: the global of a child process is the shared lock from the beginning; the
+       root's global leaves [LT] before any child runs *)
+    I_child : forall p, p <> 0 -> cur s p = LM;
+    I_root : cur s 0 = LT -> forall p, p <> 0 -> started s p = false;
+    I_root_started : started s 0 = true;
+    I_idle : forall t, started s (proc cf t) = false -> t_stack (th s t) = []
+  }.
+
+  Lemma inv_init prog : Inv (init prog).
+  Proof.
+    constructor; cbn.
+    - intro L. split; [destruct L; apply free_lock_wf|].
+      intro u. destruct L; reflexivity.
+    - intro t. split; [constructor|reflexivity].
+    - intros p N. destruct (Nat.eqb_spec p 0); congruence.
+    - intros _ p N. destruct (Nat.eqb_spec p 0); congruence.
+    - reflexivity.
+    - reflexivity.
+  Qed.
+
+  Lemma step_inv s t s' :
+    step cf s t = Some s' ->
+    (t = term_tid cf /\ exists r rest, reqs s = r :: rest /\ s' = set_io s rest (reps s ++ [r]))
+    \/ (t <> term_tid cf /\ started s (proc cf t) = true /\
+        exists a x' ev s1,
+          next false (cur s (proc cf t)) (hd_error (reps s)) (th s t) = Some (a, x', ev)
+          /\ apply cf s t a = Some s1 /\ s' = set_th s1 t x' ev).
+  Proof.
+    unfold step. intro H. destruct (Nat.eqb_spec t (term_tid cf)) as [E|N].
+    - left. split; auto. destruct (reqs s) as [|r rest]; [discriminate|].
+      inversion H. eauto.
+    - right. destruct (started s (proc cf t)) eqn:ST; [|discriminate]. cbn in H.
+      rewrite SG in H.
+      destruct (next false (cur s (proc cf t)) (hd_error (reps s)) (th s t))
+        as [[[a x'] ev]|] eqn:NX; [|discriminate].
+      destruct (apply cf s t a) as [s1|] eqn:AP; [|discriminate]. inversion H.
+      repeat split; auto. exists a, x', ev, s1. auto.
+  Qed.
+
+  Lemma apply_inv s t a s1 :
+    apply cf s t a = Some s1 ->
+    match a with
+    | ANone => s1 = s
+    | AAcq l => can_acquire (lk s l) t = true /\ s1 = set_lk s l (acquire (lk s l) t)
+    | ARel l => s1 = set_lk s l (release (lk s l))
+    | ASwap => s1 = set_cur s (proc cf t) LM
+    | AStart c h => s1 = if started s c then s else set_started (set_cur s c h) c
+    | AWrite n => s1 = set_io s (reqs s ++ [(t, n)]) (reps s)
+    | ARead => exists r rest, reps s = r :: rest /\ s1 = set_io s (reqs s) rest
+    end.
+  Proof.
+    destruct a; cbn; intro H.
+    - now inversion H.
+    - destruct (can_acquire (lk s l) t); [|discriminate]. now inversion H.
+    - now inversion H.
+    - now inversion H.
+    - destruct (started s c); now inversion H.
+    - now inversion H.
+    - destruct (reps s) as [|r rest]; [discriminate|]. inversion H. eauto.
+  Qed.
+
+  Lemma apply_th s t a s1 : apply cf s t a = Some s1 -> th s1 = th s.
+  Proof.
+    intro H. apply apply_inv in H. destruct a; try (subst; reflexivity).
+    - destruct H as [_ ->]. reflexivity.
+    - subst. destruct (started s c); reflexivity.
+    - destruct H as (r & rest & _ & ->). reflexivity.
+  Qed.
+
+  Lemma apply_cur s t a s1 :
+    apply cf s t a = Some s1 ->
+    cur s1 = match a with
+             | ASwap => upd (cur s) (proc cf t) LM
+             | AStart c h => if started s c then cur s else upd (cur s) c h
+             | _ => cur s
+             end.
+  Proof.
+    intro H. apply apply_inv in H. destruct a; try (subst; reflexivity).
+    - destruct H as [_ ->]. reflexivity.
+    - subst. destruct (started s c); reflexivity.
+    - destruct H as (r & rest & _ & ->). reflexivity.
+  Qed.
+
+  Lemma apply_started s t a s1 :
+    apply cf s t a = Some s1 ->
+    started s1 = match a with
+                 | AStart c h => if started s c then started s else upd (started s) c true
+                 | _ => started s
+                 end.
+  Proof.
+    intro H. apply apply_inv in H. destruct a; try (subst; reflexivity).
+    - destruct H as [_ ->]. reflexivity.
+    - subst. destruct (started s c); reflexivity.
+    - destruct H as (r & rest & _ & ->). reflexivity.
+  Qed.
+
+  Lemma started_mono s t a s1 p :
+    apply cf s t a = Some s1 -> started s p = true -> started s1 p = true.
+  Proof.
+    intros H ST. rewrite (apply_started _ _ _ _ H). destruct a; auto.
+    destruct (started s c) eqn:E; auto. unfold upd. destruct (Nat.eqb p c); auto.
+  Qed.
+
+  Ltac solve_L :=
+    first [ left; split; [reflexivity | lia]
+          | right; left; split; [reflexivity | split; [assumption | lia]]
+          | right; right; split; [reflexivity | split; lia] ].
+
+  Lemma acct_step s t c r a x' ev s1 :
+    Acct s -> next false c r (th s t) = Some (a, x', ev) -> apply cf s t a = Some s1 ->
+    Acct (set_th s1 t x' ev).
+  Proof.
+    intros A NX AP. pose proof (fun L => next_held _ _ _ _ _ _ L NX) as HE.
+    pose proof (apply_th _ _ _ _ AP) as TH. apply apply_inv in AP.
+    apply (Acct_intro s _ t); auto.
+    - intros u N. cbn. rewrite TH. now rewrite upd_other by auto.
+    - intro L. cbn [th set_th]. rewrite upd_same. specialize (HE L).
+      destruct a as [|l|l| |ch h|n|]; cbn in AP, HE.
+      + subst. left. split; [destruct L; reflexivity | lia].
+      + destruct AP as [C ->]. destruct L, l; cbn in *; solve_L.
+      + subst. destruct L, l; cbn in *; solve_L.
+      + subst. left. split; [destruct L; reflexivity | lia].
+      + subst. left. split; [destruct (started s ch), L; reflexivity | lia].
+      + subst. left. split; [destruct L; reflexivity | lia].
+      + destruct AP as (rp & rest & _ & ->). left. split; [destruct L; reflexivity | lia].
+  Qed.
+
+  (** the global of a process only ever changes [LT -> LM], by a swap in that process *)
+  Lemma cur_step s t a x' ev s1 p :
+    Inv s -> started s (proc cf t) = true ->
+    next false (cur s (proc cf t)) (hd_error (reps s)) (th s t) = Some (a, x', ev) ->
+    apply cf s t a = Some s1 ->
+    cur s1 p = cur s p \/ (a = ASwap /\ p = proc cf t /\ cur s1 p = LM).
+  Proof.
+    intros I ST NX AP. rewrite (apply_cur _ _ _ _ AP). destruct a; auto.
+    - unfold upd. destruct (Nat.eqb_spec p (proc cf t)); auto.
+    - destruct (started s c) eqn:SC; auto. unfold upd.
+      destruct (Nat.eqb_spec p c) as [->|N]; auto. left.
+      destruct (next_start_lm _ _ _ _ _ _ _ NX (I_local _ I t)) as [-> _].
+      symmetry. apply (I_child _ I). intros ->. rewrite (I_root_started _ I) in SC.
+      discriminate.
+  Qed.
+
+  Lemma inv_step s t s' : Inv s -> step cf s t = Some s' -> Inv s'.
+  Proof.
+    intros I H.
+    destruct (step_inv _ _ _ H)
+      as [(ET & r & rest & ER & ->) | (NT & ST & a & x' & ev & s1 & NX & AP & ->)].
+    { (* the terminal *) destruct I. constructor; auto. }
+    pose proof (I_local _ I t) as LT0.
+    pose proof (next_local _ _ _ _ _ _ NX LT0) as LO.
+    pose proof (apply_th _ _ _ _ AP) as TH.
+    pose proof (fun p => cur_step _ _ _ _ _ _ p I ST NX AP) as CU.
+    pose proof (fun p => started_mono _ _ _ _ p AP) as SM.
+    constructor.
+    - eapply acct_step; eauto. apply (I_acct _ I).
+    - intro u. cbn. rewrite TH. destruct (Nat.eq_dec u t) as [->|N].
+      + rewrite upd_same. destruct (CU (proc cf t)) as [E|(-> & _ & E)]; rewrite E.
+        * destruct a; auto. cbn in LO.
+          rewrite (apply_cur _ _ _ _ AP) in E. rewrite <- E. now rewrite upd_same.
+        * exact LO.
+      + rewrite upd_other by auto.
+        apply (local_cur_change (cur s (proc cf u))); [apply (I_local _ I)|].
+        destruct (CU (proc cf u)) as [E|(-> & EP & E)]; auto.
+        right. split; auto.
+        apply (acct_excl s t u LT (I_acct _ I)); auto.
+        eapply next_swap_holds; eauto.
+    - intros p N. cbn. destruct (CU p) as [E|(_ & _ & E)]; rewrite E; auto.
+      apply (I_child _ I); auto.
+    - cbn. intros C0 p N.
+      assert (C0' : cur s 0 = LT).
+      { destruct (CU 0) as [E|(_ & _ & E)]; congruence. }
+      rewrite (apply_started _ _ _ _ AP). destruct a; try (apply (I_root _ I); auto).
+      destruct (started s c) eqn:SC; [apply (I_root _ I); auto|]. exfalso.
+      destruct (next_start_lm _ _ _ _ _ _ _ NX LT0) as [_ CL].
+      destruct (Nat.eq_dec (proc cf t) 0) as [E0|N0].
+      + rewrite E0 in CL. congruence.
+      + rewrite (I_root _ I C0' _ N0) in ST. discriminate.
+    - cbn. apply SM. apply (I_root_started _ I).
+    - intros u SU. cbn in SU. cbn. rewrite TH.
+      destruct (Nat.eq_dec u t) as [->|N].
+      + rewrite (SM _ ST) in SU. discriminate.
+      + rewrite upd_other by auto. apply (I_idle _ I).
+        destruct (started s (proc cf u)) eqn:E; auto. rewrite (SM _ E) in SU. discriminate.
+  Qed.
+
+  Lemma inv_reachable prog s : reachable (step cf) (init prog) s -> Inv s.
+  Proof.
+    apply (reachable_ind_inv _ (step cf) Inv); [apply inv_init|].
+    intros; eapply inv_step; eauto.
+  Qed.
+
+  (** ** 4. Mutual exclusion *)
+
+  Lemma in_body_holds s t :
+    Inv s -> in_body s t -> 1 <= held (th s t) (cur s (proc cf t)).
+  Proof.
+    intros I B. destruct (I_local _ I t) as [F _]. now apply held_stack_pos.
+  Qed.
+
+  Lemma in_body_started s t : Inv s -> in_body s t -> started s (proc cf t) = true.
+  Proof.
+    intros I B. destruct (started s (proc cf t)) eqn:E; auto.
+    elim B. now apply (I_idle _ I).
+  Qed.
+
+  (** all processes that run share one value of the global *)
+  Lemma cur_agree s p q :
+    Inv s -> started s p = true -> started s q = true -> cur s p = cur s q.
+  Proof.
+    intros I SP SQ.
+    assert (K : forall a, started s a = true -> cur s a = cur s 0).
+    { intros a SA. destruct (Nat.eq_dec a 0) as [->|N]; auto.
+      rewrite (I_child _ I _ N). destruct (cur s 0) eqn:C0; auto.
+      rewrite (I_root _ I C0 _ N) in SA. discriminate. }
+    now rewrite (K _ SP), (K _ SQ).
+  Qed.
+
+  Lemma mutex_inv s t1 t2 : Inv s -> in_body s t1 -> in_body s t2 -> t1 = t2.
+  Proof.
+    intros I B1 B2.
+    pose proof (in_body_holds _ _ I B1) as H1.
+    pose proof (in_body_holds _ _ I B2) as H2.
+    rewrite (cur_agree s (proc cf t1) (proc cf t2) I) in H1
+      by (apply in_body_started; auto).
+    apply (acct_unique s t2 t1 _ (I_acct _ I) H2 H1).
+  Qed.
+
+  Theorem mutex_lemma prog s t1 t2 :
+    reachable (step cf) (init prog) s -> in_body s t1 -> in_body s t2 -> t1 = t2.
+  Proof. intro R. apply mutex_inv. eapply inv_reachable; eauto. Qed.
+
+  (** ** 5. Re-entrancy: inside a body, the only thing a thread can wait for is the
+      terminal's reply — never a lock *)
+
+  Definition waits_reply (s : state) (t : nat) : Prop :=
+    exists n, t_pc (th s t) = PWait n.
+
+  Lemma owner_proceeds_inv s t :
+    Inv s -> t <> term_tid cf -> in_body s t -> ~ waits_reply s t ->
+    exists s', step cf s t = Some s'.
+  Proof.
+    intros I NT B NW. unfold step.
+    destruct (Nat.eqb_spec t (term_tid cf)) as [|_]; [contradiction|].
+    rewrite (in_body_started _ _ I B). cbn. rewrite SG.
+    pose proof (in_body_holds _ _ I B) as HO.
+    apply (acct_owner _ _ _ (I_acct _ I)) in HO. apply can_acquire_owned in HO.
+    destruct (I_local _ I t) as [F P]. unfold in_body in B. unfold next.
+    destruct (t_pc (th s t)) eqn:PC; cbn in *; try (intuition congruence); eauto.
+    - (* PAcq1 *) destruct P as [_ P]. rewrite (P B), HO. eauto.
+    - (* PAcq2 *) destruct P as [-> _]. rewrite HO. eauto.
+    - (* PBody *) destruct (t_togo (th s t)); cbn; eauto.
+      destruct (t_io (th s t)); cbn; eauto.
+    - (* PWait *) elim NW. red. eauto.
+    - (* PAfter *) destruct (t_stack (th s t)) as [|[l1 l2] st]; [congruence|]. cbn. eauto.
+  Qed.
+
+  Theorem reentrant_lemma prog s t :
+    reachable (step cf) (init prog) s -> t <> term_tid cf -> in_body s t ->
+    (exists l1, t_pc (th s t) = PAcq1 l1) \/ (exists l1 l2, t_pc (th s t) = PAcq2 l1 l2) ->
+    exists s', step cf s t = Some s'.
+  Proof.
+    intros R NT B A. apply owner_proceeds_inv; auto; [eapply inv_reachable; eauto|].
+    intros [n E]. destruct A as [[l1 A]|[l1 [l2 A]]]; congruence.
+  Qed.
+
+  Theorem owner_proceeds_lemma prog s t :
+    reachable (step cf) (init prog) s -> t <> term_tid cf -> in_body s t ->
+    ~ waits_reply s t -> exists s', step cf s t = Some s'.
+  Proof. intros R. apply owner_proceeds_inv. eapply inv_reachable; eauto. Qed.
+
+  (** ** 6. Queries: with a FIFO terminal every caller gets exactly its own reply *)
+
+  Definition not_io (a : action) : Prop :=
+    match a with AWrite _ | ARead => False | _ => True end.
+  Definition nowait (x : thread) : Prop := forall n, t_pc x <> PWait n.
+  Definition quiet (e : event) : Prop :=
+    match e with EAcq _ | ERel _ | ESwap | EStart _ => True | _ => False end.
+
+  (** the five kinds of micro-steps, as far as bodies and queries are concerned *)
+  Inductive nclass (r : option (nat * nat)) (x : thread) (a : action) (x' : thread)
+            (ev : list event) : Prop :=
+  | NQuiet : not_io a -> nowait x -> nowait x' -> t_stack x' = t_stack x ->
+             (ev = [] \/ exists e, ev = [e] /\ quiet e) -> nclass r x a x' ev
+  | NEnter l f : not_io a -> nowait x -> nowait x' -> t_stack x' = f :: t_stack x ->
+                 ev = [EAcq l; EEnter] -> nclass r x a x' ev
+  | NExit f : not_io a -> nowait x -> nowait x' -> t_stack x = f :: t_stack x' ->
+              ev = [EExit] -> nclass r x a x' ev
+  | NWrite n : a = AWrite n -> t_pc x = PBody -> t_pc x' = PWait n ->
+               t_stack x' = t_stack x -> ev = [EWrite n] -> nclass r x a x' ev
+  | NRead n rp : a = ARead -> t_pc x = PWait n -> nowait x' -> t_stack x' = t_stack x ->
+                 r = Some rp -> ev = [EReply (fst rp) (snd rp)] -> nclass r x a x' ev.
+
+  Ltac nw :=
+    let n := fresh "n" in
+    intro n; cbn;
+    repeat match goal with
+           | H : t_pc _ = _ |- _ => rewrite H
+           | |- context [match ?e with _ => _ end] => destruct e
+           end; discriminate.
+
+  Lemma next_class c r x a x' ev :
+    next false c r x = Some (a, x', ev) -> nclass r x a x' ev.
+  Proof.
+    unfold next. intro H.
+    destruct (t_pc x) eqn:PC; step_cases H; subst.
+    all: try solve [eapply NQuiet; [exact I | nw | nw | reflexivity
+                                    | first [left; reflexivity
+                                            | right; eexists; split; [reflexivity|exact I]]]].
+    all: try solve [eapply NEnter; [exact I | nw | nw | reflexivity | reflexivity]].
+    all: try solve [eapply NExit; [exact I | nw | nw | eassumption | reflexivity]].
+    all: try solve [eapply NWrite; [reflexivity | assumption | reflexivity | reflexivity
+                                    | reflexivity]].
+    all: try solve [eapply NRead; [reflexivity | eassumption | nw | reflexivity
+                                   | reflexivity | reflexivity]].
+  Qed.
+
+  Lemma apply_io_same s t a s1 :
+    apply cf s t a = Some s1 -> not_io a -> reqs s1 = reqs s /\ reps s1 = reps s.
+  Proof.
+    intros H N. apply apply_inv in H. destruct a; cbn in N; try contradiction;
+      try (subst; split; reflexivity).
+    - destruct H as [_ ->]. split; reflexivity.
+    - subst. destruct (started s c); split; reflexivity.
+  Qed.
+
+  Lemma apply_log s t a s1 : apply cf s t a = Some s1 -> log s1 = log s.
+  Proof.
+    intro H. apply apply_inv in H. destruct a; try (subst; reflexivity).
+    - destruct H as [_ ->]. reflexivity.
+    - subst. destruct (started s c); reflexivity.
+    - destruct H as (r & rest & _ & ->). reflexivity.
+  Qed.
+
+  Lemma app_single {A} (l1 l2 : list A) r a :
+    l1 ++ r :: l2 = [a] -> l1 = [] /\ r = a /\ l2 = [].
+  Proof.
+    destruct l1 as [|b l1]; cbn; intro H.
+    - inversion H. auto.
+    - inversion H as [[E1 E2]]. destruct l1; discriminate.
+  Qed.
+
+  Record Qinv (s : state) : Prop := {
+    (* whoever waits for a reply: the only thing in flight is its own request / reply *)
+    Q_own : forall t n, t_pc (th s t) = PWait n -> reqs s ++ reps s = [(t, n)];
+    Q_none : reqs s ++ reps s = [] \/ exists t, waits_reply s t
+  }.
+
+  Lemma qinv_init prog : Qinv (init prog).
+  Proof. constructor; cbn; [discriminate|auto]. Qed.
+
+  Lemma waits_in_body s u : Inv s -> waits_reply s u -> in_body s u.
+  Proof.
+    intros I [n W]. destruct (I_local _ I u) as [_ P]. rewrite W in P. exact P.
+  Qed.
+
+  Lemma qinv_step s t s' : Inv s -> Qinv s -> step cf s t = Some s' -> Qinv s'.
+  Proof.
+    intros I Q H.
+    destruct (step_inv _ _ _ H)
+      as [(ET & r & rest & ER & ->) | (NT & ST & a & x' & ev & s1 & NX & AP & ->)].
+    { (* the terminal answers the oldest request *)
+      destruct (Q_none _ Q) as [E|[u [n W]]].
+      { rewrite ER in E. discriminate. }
+      pose proof (Q_own _ Q _ _ W) as O. rewrite ER in O. cbn in O.
+      inversion O as [[E1 E2]]. apply app_eq_nil in E2. destruct E2 as [-> E2].
+      constructor; cbn.
+      - intros t0 n0 W0. pose proof (Q_own _ Q _ _ W0) as O0.
+        rewrite ER, E2 in O0. cbn in O0. rewrite E2. cbn. congruence.
+      - right. exists u, n. exact W. }
+    pose proof (apply_th _ _ _ _ AP) as TH.
+    assert (OTH : forall u, u <> t -> th (set_th s1 t x' ev) u = th s u).
+    { intros u N. cbn. rewrite TH. now rewrite upd_other. }
+    assert (OWN : th (set_th s1 t x' ev) t = x').
+    { cbn. now rewrite upd_same. }
+    destruct (next_class _ _ _ _ _ _ NX) as
+        [NI NW NW' _ _ | l f NI NW NW' _ _ | f NI NW NW' _ _
+         | n -> PB PW _ _ | n rp -> PW NW' _ _ _].
+    1-3: destruct (apply_io_same _ _ _ _ AP NI) as [RQ RP];
+      (constructor; cbn [reqs reps set_th]; rewrite RQ, RP;
+       [ intros u m W; destruct (Nat.eq_dec u t) as [->|N];
+         [ rewrite OWN in W; elim (NW' _ W)
+         | rewrite OTH in W by auto; eapply Q_own; eauto ]
+       | destruct (Q_none _ Q) as [E|[u [m W]]]; [now left|right];
+         exists u, m; destruct (Nat.eq_dec u t) as [->|N];
+         [ elim (NW _ W) | now rewrite OTH by auto ] ]).
+    - (* a request is written: nobody else can be waiting *)
+      assert (B : in_body s t).
+      { destruct (I_local _ I t) as [_ P]. rewrite PB in P. exact P. }
+      assert (NOW : forall u, ~ waits_reply s u).
+      { intros u W. pose proof (mutex_inv _ _ _ I (waits_in_body _ _ I W) B) as ->.
+        destruct W as [m W]. congruence. }
+      destruct (Q_none _ Q) as [E|[u W]]; [|elim (NOW _ W)].
+      apply app_eq_nil in E. destruct E as [E1 E2].
+      apply apply_inv in AP.
+      assert (RQ : reqs (set_th s1 t x' ev) ++ reps (set_th s1 t x' ev) = [(t, n)]).
+      { subst s1. cbn. now rewrite E1, E2. }
+      constructor; rewrite RQ.
+      + intros u m W. destruct (Nat.eq_dec u t) as [->|N].
+        * rewrite OWN in W. congruence.
+        * rewrite OTH in W by auto. elim (NOW u). red. eauto.
+      + right. exists t, n. now rewrite OWN.
+    - (* the reply is read: it was the only thing in flight *)
+      pose proof (Q_own _ Q _ _ PW) as O.
+      apply apply_inv in AP. destruct AP as (r0 & rest & ER & ->).
+      rewrite ER in O. apply app_single in O. destruct O as (E1 & -> & ->).
+      assert (RQ : reqs (set_th (set_io s (reqs s) []) t x' ev)
+                   ++ reps (set_th (set_io s (reqs s) []) t x' ev) = []).
+      { cbn. now rewrite E1. }
+      constructor; rewrite RQ; [|now left].
+      intros u m W. destruct (Nat.eq_dec u t) as [->|N].
+      + rewrite OWN in W. elim (NW' _ W).
+      + rewrite OTH in W by auto. pose proof (Q_own _ Q _ _ W) as O.
+        rewrite E1, ER in O. cbn in O. congruence.
+  Qed.
+
+  Lemma qinv_reachable prog s : reachable (step cf) (init prog) s -> Inv s /\ Qinv s.
+  Proof.
+    apply (reachable_ind_inv _ (step cf) (fun s => Inv s /\ Qinv s)).
+    - split; [apply inv_init|apply qinv_init].
+    - intros s0 t s' [I Q] H. split; [eapply inv_step|eapply qinv_step]; eauto.
+  Qed.
+
+  (** a waiting caller: the terminal holds its request, or its reply — nothing else;
+      so the reply it reads is its own, and nobody else can read it *)
+  Theorem queries_lemma prog s t n :
+    reachable (step cf) (init prog) s -> t_pc (th s t) = PWait n ->
+    (reqs s = [(t, n)] /\ reps s = []) \/ (reqs s = [] /\ reps s = [(t, n)]).
+  Proof.
+    intros R W. destruct (qinv_reachable _ _ R) as [_ Q].
+    pose proof (Q_own _ Q _ _ W) as O.
+    destruct (reqs s) as [|r rest]; cbn in O; [now right|left].
+    inversion O as [[E1 E2]]. apply app_eq_nil in E2. destruct E2 as [-> ->]. auto.
+  Qed.
+
+  (** ** 7. Every trace of the model is accepted by the judge of [model/LocksSpec.v] *)
+
+  Definition occ_rel (s : state) (o : option (nat * nat)) : Prop :=
+    match o with
+    | None => forall t, t_stack (th s t) = []
+    | Some (u, d) => d = length (t_stack (th s u)) /\ d <> 0 /\
+                     forall t, t <> u -> t_stack (th s t) = []
+    end.
+
+  Definition pend_of (x : thread) : option nat :=
+    match t_pc x with PWait n => Some n | _ => None end.
+
+  Definition pend_rel (s : state) (pd : nat -> option nat) : Prop :=
+    forall u, pd u = pend_of (th s u).
+
+  Definition Jrel (s : state) : Prop :=
+    exists j, judge_log (log s) = Some j /\ occ_rel s (j_occ j) /\ pend_rel s (j_pend j).
+
+  Lemma judge_from_app j l1 l2 :
+    judge_from j (l1 ++ l2) =
+    match judge_from j l2 with Some j' => judge_from j' l1 | None => None end.
+  Proof.
+    induction l1 as [|te l1 IH]; cbn.
+    - destruct (judge_from j l2); reflexivity.
+    - rewrite IH. destruct (judge_from j l2); reflexivity.
+  Qed.
+
+  Lemma jstep_quiet j t e : quiet e -> j_pend j t = None -> jstep j (t, e) = Some j.
+  Proof.
+    intros Q PN. unfold jstep. cbn [fst snd]. rewrite PN.
+    destruct e; cbn in Q; try contradiction; reflexivity.
+  Qed.
+
+  Lemma nowait_none x : nowait x -> pend_of x = None.
+  Proof.
+    unfold nowait, pend_of. intro N. destruct (t_pc x) eqn:E; auto. elim (N n). reflexivity.
+  Qed.
+
+  Lemma occ_rel_same s s' o :
+    (forall u, t_stack (th s' u) = t_stack (th s u)) -> occ_rel s o -> occ_rel s' o.
+  Proof.
+    intros E. destruct o as [[u d]|]; cbn.
+    - intros (D & N & O). rewrite E. repeat split; auto. intros t NE. rewrite E. auto.
+    - intros O t. rewrite E. auto.
+  Qed.
+
+  Lemma pend_rel_step s s' t pd pd' :
+    (forall u, u <> t -> th s' u = th s u) ->
+    (forall u, u <> t -> pd' u = pd u) ->
+    pd' t = pend_of (th s' t) ->
+    pend_rel s pd -> pend_rel s' pd'.
+  Proof.
+    intros TH PD PT R u. destruct (Nat.eq_dec u t) as [->|N]; auto.
+    rewrite PD, TH by auto. apply R.
+  Qed.
+
+  Lemma jrel_init prog : Jrel (init prog).
+  Proof.
+    exists j0. cbn. repeat split.
+  Qed.
+
+  Lemma jrel_step s t s' :
+    Inv s -> Inv s' -> Qinv s -> Jrel s -> step cf s t = Some s' -> Jrel s'.
+  Proof.
+    intros I I' Q (j & JL & OR & PR) H.
+    destruct (step_inv _ _ _ H)
+      as [(ET & r & rest & ER & ->) | (NT & ST & a & x' & ev & s1 & NX & AP & ->)].
+    { exists j. auto. }
+    pose proof (apply_th _ _ _ _ AP) as TH.
+    pose proof (apply_log _ _ _ _ AP) as LG.
+    set (s' := set_th s1 t x' ev) in *.
+    assert (OTH : forall u, u <> t -> th s' u = th s u).
+    { intros u N. subst s'. cbn. rewrite TH. now rewrite upd_other. }
+    assert (OWN : th s' t = x').
+    { subst s'. cbn. now rewrite upd_same. }
+    assert (LOG : judge_log (log s') = judge_from j (rev (map (pair t) ev))).
+    { subst s'. unfold judge_log. cbn [log set_th]. rewrite judge_from_app, LG.
+      unfold judge_log in JL. now rewrite JL. }
+    unfold Jrel. rewrite LOG.
+    assert (SAME : t_stack x' = t_stack (th s t) ->
+                   forall u, t_stack (th s' u) = t_stack (th s u)).
+    { intros E u. destruct (Nat.eq_dec u t) as [->|N]; [now rewrite OWN|now rewrite OTH]. }
+    destruct (next_class _ _ _ _ _ _ NX) as
+        [NI NW NW' SK EV | l f NI NW NW' SK -> | f NI NW NW' SK ->
+         | n -> PB PW SK -> | n rp -> PW NW' SK HR ->].
+    - (* quiet *)
+      assert (PN : j_pend j t = None) by (rewrite PR; now apply nowait_none).
+      exists j. split; [|split].
+      + destruct EV as [->|(e & -> & QE)]; cbn; [reflexivity|]. now apply jstep_quiet.
+      + apply (occ_rel_same s); auto.
+      + apply (pend_rel_step s s' t (j_pend j)); auto.
+        rewrite OWN, PN. symmetry. now apply nowait_none.
+    - (* entering a body *)
+      assert (PN : j_pend j t = None) by (rewrite PR; now apply nowait_none).
+      assert (B' : in_body s' t).
+      { red. rewrite OWN, SK. discriminate. }
+      cbn. rewrite jstep_quiet by (auto; exact Logic.I).
+      unfold jstep. cbn [fst snd]. rewrite PN.
+      assert (PR' : pend_rel s' (j_pend j)).
+      { apply (pend_rel_step s s' t (j_pend j)); auto.
+        rewrite OWN, PN. symmetry. now apply nowait_none. }
+      destruct (j_occ j) as [[u d]|] eqn:OC; cbn in OR.
+      + destruct OR as (D & DN & OO).
+        destruct (Nat.eqb_spec u t) as [->|N].
+        * eexists. split; [reflexivity|]. split; [|exact PR']. cbn.
+          rewrite OWN, SK. cbn. repeat split; auto.
+          intros v NV. rewrite OTH by auto. auto.
+        * exfalso. apply N. apply (mutex_inv s' u t I'); auto.
+          red. rewrite OTH by auto. intro E. rewrite E in D. cbn in D. auto.
+      + eexists. split; [reflexivity|]. split; [|exact PR']. cbn.
+        rewrite OWN, SK, OR. cbn. repeat split; auto.
+        intros v NV. rewrite OTH by auto. auto.
+    - (* leaving a body *)
+      assert (PN : j_pend j t = None) by (rewrite PR; now apply nowait_none).
+      assert (PR' : pend_rel s' (j_pend j)).
+      { apply (pend_rel_step s s' t (j_pend j)); auto.
+        rewrite OWN, PN. symmetry. now apply nowait_none. }
+      cbn. unfold jstep. cbn [fst snd]. rewrite PN.
+      destruct (j_occ j) as [[u d]|] eqn:OC; cbn in OR.
+      2:{ rewrite OR in SK. discriminate. }
+      destruct OR as (D & DN & OO).
+      destruct (Nat.eq_dec t u) as [<-|N].
+      2:{ rewrite (OO _ N) in SK. discriminate. }
+      rewrite SK in D. cbn in D. subst d. rewrite Nat.eqb_refl.
+      eexists. split; [reflexivity|]. split; [|exact PR']. cbn.
+      destruct (length (t_stack x')) eqn:LN.
+      + cbn. intro v. destruct (Nat.eq_dec v t) as [->|NV].
+        * rewrite OWN. now apply length_zero_iff_nil.
+        * rewrite OTH by auto. auto.
+      + cbn. rewrite OWN. repeat split; auto.
+        intros v NV. rewrite OTH by auto. auto.
+    - (* a request is written *)
+      assert (PN : j_pend j t = None).
+      { rewrite PR. unfold pend_of. now rewrite PB. }
+      cbn. unfold jstep. cbn [fst snd]. rewrite PN.
+      eexists. split; [reflexivity|]. split; cbn.
+      + apply (occ_rel_same s); auto.
+      + apply (pend_rel_step s s' t (j_pend j)); auto.
+        * intros u N. now rewrite upd_other.
+        * rewrite upd_same, OWN. unfold pend_of. now rewrite PW.
+    - (* the reply is read: it is the reader's own *)
+      assert (PN : j_pend j t = Some n).
+      { rewrite PR. unfold pend_of. now rewrite PW. }
+      assert (RP : rp = (t, n)).
+      { pose proof (Q_own _ Q _ _ PW) as O.
+        destruct (reps s) as [|r0 rest] eqn:ER; [discriminate|].
+        apply app_single in O. destruct O as (_ & -> & _). cbn in HR. congruence. }
+      subst rp. cbn. unfold jstep. cbn [fst snd]. rewrite PN, !Nat.eqb_refl. cbn.
+      eexists. split; [reflexivity|]. split; cbn.
+      + apply (occ_rel_same s); auto.
+      + apply (pend_rel_step s s' t (j_pend j)); auto.
+        * intros u N. now rewrite upd_other.
+        * rewrite upd_same, OWN. symmetry. now apply nowait_none.
+  Qed.
+
+  Lemma jrel_reachable prog s : reachable (step cf) (init prog) s -> Jrel s.
+  Proof.
+    intro R.
+    assert (K : Inv s /\ Qinv s /\ Jrel s).
+    { revert s R.
+      apply (reachable_ind_inv _ (step cf) (fun s => Inv s /\ Qinv s /\ Jrel s)).
+      - repeat split; [apply inv_init|apply qinv_init|apply jrel_init].
+      - intros s0 t s' (I & Q & J) H.
+        assert (I' : Inv s') by (eapply inv_step; eauto).
+        repeat split; auto; [eapply qinv_step|eapply jrel_step]; eauto. }
+    apply K.
+  Qed.
+
+  Theorem trace_accepted_lemma prog s :
+    reachable (step cf) (init prog) s -> accepts (rev (log s)) = true.
+  Proof.
+    intro R. destruct (jrel_reachable _ _ R) as (j & JL & _).
+    unfold accepts. rewrite rev_involutive, JL. reflexivity.
+  Qed.
+End Inv.
